@@ -41,4 +41,12 @@ def main(argv):
 
 
 if __name__ == "__main__":
-    sys.exit(main(sys.argv[1:]))
+    try:
+        rc = main(sys.argv[1:])
+    except SystemExit:
+        raise
+    except BaseException as e:  # a crash of the harness is an infrastructure error, never a violation
+        import traceback
+        print("INFRA-ERROR harness crashed: %s: %s\n%s" % (type(e).__name__, e, traceback.format_exc()[-1500:]))
+        rc = 2
+    sys.exit(rc)
